@@ -5,7 +5,8 @@ import random
 BOUND = {
     "quick": "Calendar > Event with one property of kind text / uri / cal-address / categories / x-inline whose value (and one parameter "
              "value) ranges over all strings of length <= 3 over 13 delimiter characters plus structure tokens (BEGIN:VEVENT, END:VEVENT, "
-             "X:1, CRLF); 1500 seeded longer strings",
+             "X:1, CRLF); 1500 seeded longer strings; parameter values of C08's stand-in (length <= 3 over 12 characters incl. ^ and ') through a "
+             "content line and an Event",
     "thorough": "strings of length <= 4 and 20000 seeded strings",
 }
 ALPHA = ["\\", ";", ":", ",", '"', "%", "2", "C", "3", "A", "\r", "\n", " "]
@@ -103,6 +104,26 @@ def run(b, tier, seed, findings, known_seen):
         if msg and len(fails) < 12:
             fails.setdefault((prop, pv is None, msg.split(":")[0]), {"witness": {"prop": prop, "kind": kind, "value": v, "pvalue": pv},
                                                                      "detail": f"{prop}={v!r} param={pv!r}: {msg}"})
+    # "the same parameters": the content-line and event routes of C08's stand-in (real Parameters inside a Contentline / an Event) on
+    # parameter values over C08's alphabet (, ; : = ' ^ space backslash % 2 C a) plus n; the class of C05-F2 is the known finding
+    from props import C08_bnd
+    rs = C08_bnd.routes()
+    f2 = [f for f in findings if f["id"] == "C05-F2"]
+    seen_f2 = False
+    extra = [{"CN": a + b + c} for a in ("", "x", "^") for b in ("^", "^^", "'", "n") for c in ("n", "'", "^", "a", "")]
+    for params in list(C08_bnd.gen(tier, seed)) + extra:
+        for route in ("line", "event"):
+            n += 1
+            msg = C08_bnd.check(rs[route], params)
+            if not msg:
+                continue
+            if f2 and C08_bnd.in_class(f2[0]["class"], params):
+                seen_f2 = True
+                continue
+            if len(fails) < 14:
+                fails.setdefault(("params", route), {"witness": {"route": route, "params": repr(params)}, "detail": f"{route}: parameters {params!r} read back differently: {msg}"})
+    if seen_f2:
+        known_seen.append(f"{f2[0]['id']} {f2[0]['what']}")
     b.cases = n
     b.nontrivial = n
     b.failures = list(fails.values())
@@ -111,4 +132,7 @@ def run(b, tier, seed, findings, known_seen):
 
 
 def replay_witness(w):
+    if "route" in w:
+        from props import C08_bnd
+        return C08_bnd.replay_witness(w)
     return check(w["prop"], w["kind"], w["value"], w["pvalue"])
